@@ -138,6 +138,9 @@ func Assert(label string, c bool) {
 	}
 }
 
+// Lemma is an assertion whose fact the executor may use afterwards on the same path (cut rule).
+func Lemma(label string, c bool) { Assert(label, c) }
+
 func AssertEqF(label string, got, want float64) {
 	if math.IsNaN(want) || math.IsInf(want, 0) {
 		return // reference undefined here: nothing is required of the implementation
